@@ -106,7 +106,8 @@ class Run:
         cmd = ['verus', self.woven_path, '--output-json', '--time', '--error-format=json', '--multiple-errors', '8',
                '--num-threads', '16']
         if not whole:
-            for m in sorted(modules) + ['vcanary']:
+            vl = sorted(set(re.findall(r'pub mod (vlib\w*)', self.w.prelude)))
+            for m in sorted(modules) + ['vcanary'] + vl:
                 cmd += ['--verify-only-module', m] if m else ['--verify-root']
         if seed is not None:
             cmd += ['--smt-option', f'smt.random_seed={seed}']
@@ -256,7 +257,7 @@ class Run:
                 if mod == 'vcanary': continue
                 incone = False
                 if fb.get('mode:') == 'proof':
-                    incone = mod in item_mods or mod in conenames
+                    incone = mod in item_mods or mod in conenames or mod.startswith('vlib')
                 elif fb.get('mode:') == 'exec':
                     incone = mod in conenames and (rest in conenames[mod] or rest.split('::')[-1] in conenames[mod])
                 if whole and fb.get('mode:') in ('exec', 'proof'): incone = True
